@@ -385,12 +385,13 @@ def object_corruption_obligations(job):
     tops = [(name, flow, m) for (name, flow, m) in spec[1] if m[0] == "port" and m[1][0] in ("u", "s") and all(d > 0 for d in m[3])]
     if not tops:
         return out
-    for kind in ("element width", "element initial value"):
+    for kind in ("element width", "element initial value", "element constant width"):
         name, flow, m = r.choice(tops)
         _, shp, init, dims = m
         idx = tuple(d - 1 if r.random() < 0.7 else r.randrange(d) for d in dims)      # mostly the LAST element
         base = {"id": f"{job['id']}-objcorrupt-{kind.split()[-1]}", "kind": "ConnectionError on a non-compliant object (concrete)", "nontrivial": False,
-                "program": job["text"] + f"  with q.{name}{''.join(f'[{i}]' for i in idx)} replaced by a signal of another {kind.split(' ', 1)[1]}",
+                "program": job["text"] + f"  with q.{name}{''.join(f'[{i}]' for i in idx)} replaced by a " +
+                           ("constant one bit wider than the member" if kind == "element constant width" else f"signal of another {kind.split(' ', 1)[1]}"),
                 "assertion": "connect() raises ConnectionError when an element of an interface object does not comply with its signature, wherever it stands in an array"}
         try:
             with warnings.catch_warnings():
@@ -400,6 +401,8 @@ def object_corruption_obligations(job):
                 w, sgn = shp[1], shp[0] == "s"
                 cur = 0 if init is None else init
                 bad = Signal(Shape(w + 1, sgn)) if kind == "element width" else Signal(Shape(max(w, 1), sgn), init=(cur ^ 1) if not sgn else (0 if cur else -1))
+                if kind == "element constant width":
+                    bad = Const(cur, Shape(w + 1, sgn))           # the right value in a shape of the wrong width
                 if kind == "element initial value" and w == 0:
                     continue
                 if not idx:
